@@ -131,4 +131,292 @@ theorem plainServerUnpack_safe (hdr3 : Bool) (b : Bytes) (q n : Nat) (h : q + n 
       generalize decodeAddr _ = x at hx ⊢
       cases x <;> simp_all [Outcome.safe]
 
+/-- the ss2022 client packer never panics and never lacks seal room when 16 bytes follow the payload:
+too little front space is reported as `ErrPayloadTooBig` by the padding guard -/
+theorem ssClientPack_safe (c : Crypto) (userBlock aeadKey : Bytes) (eih : List (Bytes × Bytes)) (mps : Int) (pol : Policy)
+    (b : Bytes) (a : Addr) (ps pl rand : Nat) (ts sid pid : Bytes) (ha : a.wf) (hroom : ps + pl + 16 ≤ b.length) :
+    (ssClientPack c userBlock aeadKey eih mps pol b a ps pl rand ts sid pid).safe := by
+  obtain ⟨hal1, hal2⟩ := addrLen_bounds a ha
+  unfold ssClientPack
+  rw [wf_not_domTooLong ha]
+  simp only [Bool.false_eq_true, if_false]
+  split
+  · simp [Outcome.safe]
+  · next hmax =>
+    have hb := choosePadding_bounds _ (shouldPad pol a.port) rand (Int.not_lt.mp hmax)
+    generalize choosePadding _ (shouldPad pol a.port) rand = padI at hb
+    have hb2 := hb.2
+    simp only [cMaxPaddingLen, cHeaderNoPaddingLen, UDPSeparateHeaderLength, IdentityHeaderLength] at hb2
+    unfold ssClientPackWith
+    simp only
+    rw [if_neg (by simp only [Decidable.not_not, sliceOk, cMessageHeaderStart]; omega),
+      if_neg (by simp only [Decidable.not_not, sliceOk, cMessageHeaderStart, cPacketStart, cIdentityHeadersStart, UDPSeparateHeaderLength, IdentityHeaderLength]; omega),
+      if_neg (by simp only [Decidable.not_not, sliceOk, cMessageHeaderStart]; omega),
+      if_neg (by omega)]
+    simp [Outcome.safe]
+
+theorem parseClientHeader_ok {pt : Bytes} {now : Int} {a : Addr} {ps' pl' : Nat}
+    (h : parseClientHeader pt now = .ok (a, ps', pl')) :
+    a.wf ∧ a ≠ .zero ∧ 11 + addrLen a ≤ ps' ∧ ps' + pl' = pt.length := by
+  unfold parseClientHeader at h
+  simp only [ite_err_eq_ok] at h
+  obtain ⟨h1, h2, h3, h4, h⟩ := h
+  simp only [UDPClientMessageHeaderFixedLength] at h1 h4 h
+  split at h
+  · next a' n hd =>
+    simp only [Outcome.ok.injEq, Prod.mk.injEq] at h
+    obtain ⟨rfl, rfl, rfl⟩ := h
+    obtain ⟨hw, hl, hn, hz⟩ := decodeAddr_ok hd
+    simp only [List.length_drop] at hn
+    refine ⟨hw, hz, by omega, by omega⟩
+  · cases h
+  · cases h
+  · cases h
+
+theorem parseClientHeader_safe (pt : Bytes) (now : Int) : (parseClientHeader pt now).safe := by
+  unfold parseClientHeader
+  split
+  · simp [Outcome.safe]
+  split
+  · simp [Outcome.safe]
+  split
+  · simp [Outcome.safe]
+  simp only
+  split
+  · simp [Outcome.safe]
+  generalize hx : decodeAddr _ = x
+  have hs : x.safe := by rw [← hx]; exact decodeAddr_safe _
+  cases x <;> simp_all [Outcome.safe]
+
+
+/-- what the ss2022 server side can return: a buffer of the same length, a well-formed address, and a payload
+window that starts behind a header at least as long as a fresh header for that address and ends 16 bytes
+(the tag) before the end of the packet -/
+theorem ssServerUnpack_ok {c : Crypto} (L : c.Laws) {block key : Bytes} {k : Nat} {lookup : Bool} {users : List (Bytes × Bytes)}
+    {now : Int} {b : Bytes} {q n : Nat} {u : Unpacked Addr}
+    (h : ssServerUnpack c block key k lookup users now b q n = .ok u) :
+    u.buf.length = b.length ∧ u.addr.wf ∧ u.addr ≠ .zero ∧ q + n ≤ b.length ∧
+    ∃ hdr : Nat, u.payloadStart = (q + hdr : Nat) ∧ u.payloadLen + hdr + 16 = n ∧ 0 ≤ u.payloadLen ∧
+      16 + 16 * k + 11 + addrLen u.addr ≤ hdr := by
+  have hna : UDPSeparateHeaderLength + IdentityHeaderLength * k = 16 + 16 * k := rfl
+  have hu : UDPSeparateHeaderLength = 16 := rfl
+  unfold ssServerUnpack at h
+  rw [hna, hu] at h
+  simp only [ite_panic_eq_ok, ite_err_eq_ok, Decidable.not_not] at h
+  obtain ⟨hs, h1, h2, h⟩ := h
+  simp only [sliceOk] at hs
+  split at h
+  · cases h
+  · next key' hk =>
+    simp only [ite_err_eq_ok] at h
+    obtain ⟨h3, h⟩ := h
+    simp only [sUnpackTooSmall, decide_eq_true_eq] at h3
+    split at h
+    · cases h
+    · next pt hopen =>
+      split at h
+      · next a ps' pl' hparse =>
+        simp only [Outcome.ok.injEq] at h
+        subst h
+        obtain ⟨hw, hz, hl, hsum⟩ := parseClientHeader_ok hparse
+        have hmhs : (sUnpackMessageHeaderStart (q : Int) ((16 + 16 * k : Nat) : Int)).toNat = q + (16 + 16 * k) := by
+          simp only [sUnpackMessageHeaderStart]; omega
+        have hol := L.open_len _ _ _ _ hopen
+        rw [hmhs, sub_length _ _ _ (by omega)] at hol
+        have hsepl : (c.dec block (sub b q 16)).length = 16 := by rw [L.dec_len, sub_length _ _ _ (by omega)]
+        have hraw : (sub b (q + 16) (16 + 16 * k - 16)).length = 16 + 16 * k - 16 := sub_length _ _ _ (by omega)
+        refine ⟨?_, hw, hz, by omega, 16 + 16 * k + ps', ?_, ?_, ?_, ?_⟩
+        · simp only
+          apply splice_length
+          simp only [List.length_append, hsepl]
+          split
+          · simp only [List.length_append, xorBytes_length, L.dec_len, List.length_take, List.length_drop, hraw, hsepl]
+            omega
+          · rw [hraw]; omega
+        · simp only [sUnpackMessageHeaderStart]; omega
+        · simp only; omega
+        · simp only; omega
+        · simp only; omega
+      · cases h
+      · cases h
+      · cases h
+
+theorem ssServerUnpack_safe (c : Crypto) (block key : Bytes) (k : Nat) (lookup : Bool) (users : List (Bytes × Bytes))
+    (now : Int) (b : Bytes) (q n : Nat) (h : q + n ≤ b.length) :
+    (ssServerUnpack c block key k lookup users now b q n).safe := by
+  unfold ssServerUnpack
+  rw [if_neg (by simp only [Decidable.not_not, sliceOk]; omega)]
+  split
+  · simp [Outcome.safe]
+  try simp only
+  split
+  · simp [Outcome.safe]
+  split
+  · simp [Outcome.safe]
+  · split
+    · simp [Outcome.safe]
+    · try simp only
+      split
+      · simp [Outcome.safe]
+      · generalize hx : parseClientHeader _ now = x
+        have hsx : x.safe := by rw [← hx]; exact parseClientHeader_safe _ _
+        cases x <;> simp_all [Outcome.safe]
+
+
+theorem plainClientUnpack_ok {hdr3 : Bool} {server src : AddrPort} {b : Bytes} {q n : Nat} {u : Unpacked AddrPort}
+    (h : plainClientUnpack hdr3 server src b q n = .ok u) :
+    u.buf = b ∧ u.addr.wf ∧ q + n ≤ b.length ∧
+    ∃ hdr : Nat, u.payloadStart = (q + hdr : Nat) ∧ u.payloadLen + hdr = n ∧ 0 ≤ u.payloadLen ∧
+      (if hdr3 then 3 else 0) + addrPortLen u.addr ≤ hdr := by
+  unfold plainClientUnpack at h
+  simp only [ite_err_eq_ok, ite_panic_eq_ok, Decidable.not_not] at h
+  obtain ⟨_, h1, hs, h2, h⟩ := h
+  simp only [sliceOk] at hs
+  split at h
+  · next a m hd =>
+    simp only [Outcome.ok.injEq] at h
+    subst h
+    obtain ⟨hw, hl, hm⟩ := decodeAddrPort_ok hd
+    have hsl : (sub b q n).length = n := sub_length _ _ _ (by omega)
+    cases hdr3
+    · simp only [Bool.false_eq_true, if_false, hsl] at hm ⊢
+      refine ⟨trivial, hw, by omega, m, ?_, ?_, ?_, by omega⟩
+      · simp only [noneCUPayloadStart]; omega
+      · simp only [noneCUPayloadLen]; omega
+      · simp only [noneCUPayloadLen]; omega
+    · simp only [if_true, List.length_drop, hsl] at hm ⊢
+      simp only [true_and, socks5CUTooSmall, decide_eq_true_eq] at h1
+      refine ⟨trivial, hw, by omega, m + 3, ?_, ?_, ?_, by omega⟩
+      · simp only [socks5CUPayloadStart]; omega
+      · simp only [socks5CUPayloadLen]; omega
+      · simp only [socks5CUPayloadLen]; omega
+  · cases h
+  · cases h
+  · cases h
+
+theorem plainClientUnpack_safe (hdr3 : Bool) (server src : AddrPort) (b : Bytes) (q n : Nat) (h : q + n ≤ b.length) :
+    (plainClientUnpack hdr3 server src b q n).safe := by
+  unfold plainClientUnpack
+  split
+  · simp [Outcome.safe]
+  split
+  · simp [Outcome.safe]
+  · rw [if_neg (by simp only [Decidable.not_not, sliceOk]; omega)]
+    simp only
+    split
+    · simp [Outcome.safe]
+    · generalize hx : decodeAddrPort _ = x
+      have hs : x.safe := by rw [← hx]; exact decodeAddrPort_safe _
+      cases x <;> simp_all [Outcome.safe]
+
+theorem parseServerHeader_ok {pt : Bytes} {now : Int} {csid : Bytes} {a : AddrPort} {ps' pl' : Nat}
+    (h : parseServerHeader pt now csid = .ok (a, ps', pl')) :
+    a.wf ∧ 19 + addrPortLen a ≤ ps' ∧ ps' + pl' = pt.length := by
+  unfold parseServerHeader at h
+  simp only [ite_err_eq_ok] at h
+  obtain ⟨h1, h2, h3, h3', h4, h⟩ := h
+  simp only [UDPServerMessageHeaderFixedLength] at h1 h4 h
+  split at h
+  · next a' n hd =>
+    simp only [Outcome.ok.injEq, Prod.mk.injEq] at h
+    obtain ⟨rfl, rfl, rfl⟩ := h
+    obtain ⟨hw, hl, hn⟩ := decodeAddrPort_ok hd
+    simp only [List.length_drop] at hn
+    refine ⟨hw, by omega, by omega⟩
+  · cases h
+  · cases h
+  · cases h
+
+theorem parseServerHeader_safe (pt : Bytes) (now : Int) (csid : Bytes) : (parseServerHeader pt now csid).safe := by
+  unfold parseServerHeader
+  split
+  · simp [Outcome.safe]
+  split
+  · simp [Outcome.safe]
+  split
+  · simp [Outcome.safe]
+  split
+  · simp [Outcome.safe]
+  simp only
+  split
+  · simp [Outcome.safe]
+  generalize hx : decodeAddrPort _ = x
+  have hs : x.safe := by rw [← hx]; exact decodeAddrPort_safe _
+  cases x <;> simp_all [Outcome.safe]
+
+theorem ssClientUnpack_ok {c : Crypto} (L : c.Laws) {block key csid : Bytes} {now : Int} {b : Bytes} {q n : Nat}
+    {u : Unpacked AddrPort} (h : ssClientUnpack c block key csid now b q n = .ok u) :
+    u.buf.length = b.length ∧ u.addr.wf ∧ q + n ≤ b.length ∧
+    ∃ hdr : Nat, u.payloadStart = (q + hdr : Nat) ∧ u.payloadLen + hdr + 16 = n ∧ 0 ≤ u.payloadLen ∧
+      16 + 19 + addrPortLen u.addr ≤ hdr := by
+  unfold ssClientUnpack at h
+  simp only [ite_panic_eq_ok, ite_err_eq_ok, Decidable.not_not] at h
+  obtain ⟨h1, hs1, hs2, h⟩ := h
+  simp only [sliceOk, cUnpackMessageHeaderStart] at hs1 hs2
+  simp only [cUnpackTooSmall, decide_eq_true_eq] at h1
+  split at h
+  · cases h
+  · next pt hopen =>
+    split at h
+    · next a ps' pl' hparse =>
+      simp only [Outcome.ok.injEq] at h
+      subst h
+      obtain ⟨hw, hl, hsum⟩ := parseServerHeader_ok hparse
+      have hmhs : (cUnpackMessageHeaderStart (q : Int)).toNat = q + 16 := by
+        simp only [cUnpackMessageHeaderStart]; omega
+      have hol := L.open_len _ _ _ _ hopen
+      rw [hmhs, sub_length _ _ _ (by omega)] at hol
+      have hsepl : (c.dec block (sub b q 16)).length = 16 := by rw [L.dec_len, sub_length _ _ _ (by omega)]
+      refine ⟨?_, hw, by omega, 16 + ps', ?_, ?_, ?_, ?_⟩
+      · simp only
+        apply splice_length
+        simp only [List.length_append, hsepl]
+        omega
+      · simp only [cUnpackMessageHeaderStart]; omega
+      · simp only; omega
+      · simp only; omega
+      · simp only; omega
+    · cases h
+    · cases h
+    · cases h
+
+theorem ssClientUnpack_safe (c : Crypto) (block key csid : Bytes) (now : Int) (b : Bytes) (q n : Nat) (h : q + n ≤ b.length) :
+    (ssClientUnpack c block key csid now b q n).safe := by
+  unfold ssClientUnpack
+  split
+  · simp [Outcome.safe]
+  · next h1 =>
+    simp only [cUnpackTooSmall, decide_eq_true_eq] at h1
+    rw [if_neg (by simp only [Decidable.not_not, sliceOk, cUnpackMessageHeaderStart]; omega),
+      if_neg (by simp only [Decidable.not_not, sliceOk, cUnpackMessageHeaderStart]; omega)]
+    try simp only
+    split
+    · simp [Outcome.safe]
+    · generalize hx : parseServerHeader _ now csid = x
+      have hsx : x.safe := by rw [← hx]; exact parseServerHeader_safe _ _ _
+      cases x <;> simp_all [Outcome.safe]
+
+/-- the ss2022 server packer never panics and never lacks seal room when 16 bytes follow the payload -/
+theorem ssServerPack_safe (c : Crypto) (block aeadKey : Bytes) (pol : Policy) (b : Bytes) (src : AddrPort)
+    (ps pl : Nat) (lim : Int) (rand : Nat) (ts ssid spid csid : Bytes) (hroom : ps + pl + 16 ≤ b.length) :
+    (ssServerPack c block aeadKey pol b src ps pl lim rand ts ssid spid csid).safe := by
+  obtain ⟨hal1, hal2⟩ := addrPortLen_bounds src
+  unfold ssServerPack
+  simp only
+  split
+  · simp [Outcome.safe]
+  · next hmax =>
+    have hb := choosePadding_bounds _ (shouldPad pol src.port) rand (Int.not_lt.mp hmax)
+    generalize choosePadding _ (shouldPad pol src.port) rand = padI at hb
+    have hb2 := hb.2
+    simp only [sMaxPaddingLen, sHeaderNoPaddingLen] at hb2
+    unfold ssServerPackWith
+    simp only
+    rw [if_neg (by simp only [Decidable.not_not, sliceOk, sMessageHeaderStart]; omega),
+      if_neg (by simp only [Decidable.not_not, sliceOk, sMessageHeaderStart, sPacketStart]; omega),
+      if_neg (by simp only [Decidable.not_not, sliceOk, sMessageHeaderStart]; omega),
+      if_neg (by omega)]
+    simp [Outcome.safe]
+
+
 end SSV.Packet
